@@ -195,6 +195,10 @@ def column(draw, name, kinds=ALL_KINDS, thorough=False, nulls=True, subs=None, l
         col["cats"] = cats
         col["ordered"] = like.get("ordered", False) if like else draw(st.booleans())
         col["null"] = draw(null_spec(nulls))
+        if not like and nulls and lk == "text" and draw(st.integers(0, 24)) == 0:
+            # no category at all: every cell is missing
+            col["cats"] = []
+            col["null"] = {"pat": "all", "mask": []}
     elif kind == "pyobj":
         # object-dtype column of Python ints / bools / floats (stored as INT64 / BOOLEAN / DOUBLE) with None for missing
         sub = draw(st.sampled_from(subs or ["int", "int", "bool", "float"]))
